@@ -28,13 +28,22 @@ func zzNewPayload() *zzPayload {
 func zzCycle(kind int, p *zzPayload) {
 	switch kind {
 	case 0:
-		r := NewBufferReader(bufiox.NewBytesReader(p.enc))
+		// the instance's input lives in caller memory with a power-of-two capacity
+		in := make([]byte, len(p.enc), 16)
+		copy(in, p.enc)
+		zzMarkCaller(in, "input of a bytes-backed reader")
+		br := bufiox.NewBytesReader(in)
+		r := NewBufferReader(br)
+		defer func() {
+			_, _ = r.ReadI64() // over-read at the end of the input, then release
+			_ = br.Release(nil)
+			zzAssert(!zzIsFreed(in), "an instance's input was recycled into the shared pool")
+		}()
 		v, err := r.ReadI64()
 		zzAssert(zzAnd(err == nil, v == p.v), "BufferReader saw another instance's data")
 		s, err := r.ReadBinary()
 		zzAssert(err == nil, "BufferReader failed")
 		zzAssertEqBytes(s, p.s, "BufferReader saw another instance's data")
-		r.Recycle()
 	case 1:
 		var out []byte
 		bw := bufiox.NewBytesWriter(&out)
